@@ -153,16 +153,10 @@ theorem in_token_answered_only_in_data_or_status_in (c : DevConfig) (h : List St
         ¬ ((final c init h).setup.isIn = true ∧ (final c init h).setup.length ≠ 0))) :=
   in_token_answered_only_in_data_or_status_in_of_inv c (final c init h) (inv_reachable c h) addr ep hr
 
-/-- **C07 (status direction, OUT).** If the control endpoint answers a host data packet that is not the
-SETUP packet itself, the packet is the status-OUT stage of a device-to-host request with `wLength ≠ 0`
-(last token: OUT for endpoint 0). -/
-theorem out_data_answered_only_in_status_out (c : DevConfig) (h : List Stim) (pid : Nat) (p : List Nat) (ok : Bool)
-    (hw : (final c init h).sdWait = false)
-    (hr : (core c (final c init h) (.data pid p ok)).2 ≠ .none) :
-    (final c init h).stage = .statusOut ∧ (final c init h).tokEp = 0 ∧ (final c init h).tokPid = PID_OUT ∧
-    (final c init h).setup.isIn = true ∧ (final c init h).setup.length ≠ 0 ∧ ok = true := by
-  have i := inv_reachable c h
-  generalize final c init h = s at *
+/-- The same for every state that satisfies the model's invariant. -/
+theorem out_data_answered_only_in_status_out_of_inv (c : DevConfig) (s : DevState) (i : Inv s) (pid : Nat) (p : List Nat)
+    (ok : Bool) (hw : s.sdWait = false) (hr : (core c s (.data pid p ok)).2 ≠ .none) :
+    s.stage = .statusOut ∧ s.tokEp = 0 ∧ s.tokPid = PID_OUT ∧ s.setup.isIn = true ∧ s.setup.length ≠ 0 ∧ ok = true := by
   unfold core onData at hr
   simp only [hw] at hr
   split at hr
@@ -173,6 +167,16 @@ theorem out_data_answered_only_in_status_out (c : DevConfig) (h : List Stim) (pi
     · rename_i g
       exact ⟨g.1, g.2.1, g.2.2, (i.status_out g.1).1, (i.status_out g.1).2, by simpa using hok⟩
     · exact absurd rfl hr
+
+/-- **C07 (status direction, OUT).** If the control endpoint answers a host data packet that is not the
+SETUP packet itself, the packet is the status-OUT stage of a device-to-host request with `wLength ≠ 0`
+(last token: OUT for endpoint 0). -/
+theorem out_data_answered_only_in_status_out (c : DevConfig) (h : List Stim) (pid : Nat) (p : List Nat) (ok : Bool)
+    (hw : (final c init h).sdWait = false)
+    (hr : (core c (final c init h) (.data pid p ok)).2 ≠ .none) :
+    (final c init h).stage = .statusOut ∧ (final c init h).tokEp = 0 ∧ (final c init h).tokPid = PID_OUT ∧
+    (final c init h).setup.isIn = true ∧ (final c init h).setup.length ≠ 0 ∧ ok = true :=
+  out_data_answered_only_in_status_out_of_inv c (final c init h) (inv_reachable c h) pid p ok hw hr
 
 /-- **C07 (every SETUP starts a fresh transfer).** From ANY state whatsoever (abandoned transfer in any
 stage, handler in any state), a SETUP transaction for the device puts the control endpoint and — for a
